@@ -199,10 +199,13 @@ class FilReader(Filterbank):
             data = np.frombuffer(read_buffer, dtype=self.bitsinfo.dtype)
 
         self._file.seek(start * self.samp_stride)
-        nreads, lastread = divmod(nsamps, (gulp - skipback))
-        if lastread < skipback:
-            nreads -= 1
-            lastread = nsamps - (nreads * (gulp - skipback))
+        # Full blocks start every (gulp - skipback) samples and must end inside
+        # the requested range; the last (shorter) block takes what remains.
+        nreads = (nsamps - gulp) // (gulp - skipback) + 1
+        lastread = nsamps - (nreads * (gulp - skipback))
+        if lastread == skipback:
+            # the last full block already ends at the last requested sample
+            lastread = 0
         blocks = [
             (ii, gulp * self.header.nchans, -skipback * self.header.nchans)
             for ii in range(nreads)
